@@ -224,6 +224,15 @@ pub fn run_dispatch<N: AsRef<[Link]>>(
             }
         }
 
+        #[cfg(feature = "verif-hooks")]
+        crate::verif_hooks::dispatch_observe(&crate::verif_hooks::DispatchSnapshot {
+            phase: "move",
+            train_idx_curr,
+            link_disp_auths: &link_disp_auths,
+            links_blocked: &links_blocked,
+            train_disps: &train_disps,
+        });
+
         let train_curr = &train_disps[train_idx_curr.idx()];
 
         // If the train is blocked and not finished, add it to the blocked trains
@@ -250,6 +259,15 @@ pub fn run_dispatch<N: AsRef<[Link]>>(
     if !train_idxs_blocked.is_empty() {
         bail!("The following trains got stuck! {:?}", train_idxs_blocked);
     }
+
+    #[cfg(feature = "verif-hooks")]
+    crate::verif_hooks::dispatch_observe(&crate::verif_hooks::DispatchSnapshot {
+        phase: "final",
+        train_idx_curr: None,
+        link_disp_auths: &link_disp_auths,
+        links_blocked: &links_blocked,
+        train_disps: &train_disps,
+    });
 
     Ok(train_disps[1..]
         .iter()
